@@ -169,7 +169,7 @@ def dispatch_completeness(repo: Repo, R, noret):
     fi = repo.func(F_ORPH, "Orphanage.check_connectable")
     handled = isinstance_handled(repo, fi, subject=fi.node.args.args[2].arg)
     missing = sorted(conn - handled)
-    falls = au.raises(fi.node.body, noret)
+    falls = au.default_raises(fi.node.body, noret)
     R.check(not missing and falls, rule, key_of(fi), fi.site,
             f"Orphanage.check_connectable handles {sorted(handled)} of Connectable {sorted(conn)}" + (f"; MISSING {missing}" if missing else "") + f"; unknown kinds raise: {falls}",
             why="connections of an unhandled kind are never checked for ownership")
@@ -207,7 +207,7 @@ def dispatch_completeness(repo: Repo, R, noret):
     fc = repo.func(F_CONNT, "ConnTypes.check_compatible")
     hp = isinstance_handled(repo, fc, subject="port")
     need = set(union(repo, F_WIDTH, "HasWidth")) | {"BundleInstance"}
-    falls = au.raises(fc.node.body, noret)
+    falls = au.dispatch_default_raises(fc.node, "port", noret)
     R.check(need <= hp and falls, rule, key_of(fc), fc.site,
             f"check_compatible dispatches ports over {sorted(hp)} (needs {sorted(need)}); other port kinds fail: {falls}",
             why="a port kind is accepted without any compatibility check")
@@ -243,19 +243,26 @@ def _norm(t: ast.AST) -> str:
 def has_guard(fi: FuncInfo, pred: Callable[[ast.AST], bool], noret, outcome="raise") -> Optional[ast.If]:
     """An `if <test>:` in fi whose test satisfies pred and whose body fails
     (raise / no-return helper) or, for outcome='status', returns a non-Valid status."""
+    from ..canon import _negate
+    import copy as _copy
+
     for n in _ifs(fi):
-        try:
-            okp = pred(n.test)
-        except Exception:
-            okp = False
-        if not okp:
-            continue
-        if outcome == "raise" and au.raises(n.body, noret):
-            return n
-        if outcome == "status":
-            last = n.body[-1]
-            if isinstance(last, ast.Return) and last.value is not None and any(k in ast.unparse(last.value) for k in ("InvalidType", "NoPort", "Unconnected")):
+        # canonical form: tests are positive, so the failing branch may be either one
+        for test, branch in ((n.test, n.body), (ast.fix_missing_locations(_negate(_copy.deepcopy(n.test))), n.orelse)):
+            if not branch:
+                continue
+            try:
+                okp = pred(test)
+            except Exception:
+                okp = False
+            if not okp:
+                continue
+            if outcome == "raise" and au.raises(branch, noret):
                 return n
+            if outcome == "status":
+                last = branch[-1]
+                if isinstance(last, ast.Return) and last.value is not None and any(k in ast.unparse(last.value) for k in ("InvalidType", "NoPort", "Unconnected")):
+                    return n
     return None
 
 
@@ -336,7 +343,7 @@ def guard_inventory(repo: Repo, R, noret):
     fb = repo.func(F_CONNT, "ConnTypes.check_bundles_compatible")
     for what, attr in (("signal names", "signals"), ("sub-bundle names", "bundles")):
         def pred(t, attr=attr):
-            return isinstance(t, ast.Compare) and isinstance(t.ops[0], ast.NotEq) and {ast.unparse(t.left), ast.unparse(t.comparators[0])} == {f"sorted(bundle.{attr}.keys())", f"sorted(other.{attr}.keys())"}
+            return isinstance(t, ast.Compare) and isinstance(t.ops[0], ast.NotEq) and {ast.unparse(t.left), ast.unparse(t.comparators[0])} == {f"sorted(bundle.{attr})", f"sorted(other.{attr})"}
         G(fb, f"bundle-{attr}-match", pred, f"bundles with different {what} are incompatible", "a bundle with a missing or extra member is connected to a bundle port", outcome="status")
     sig_loop = any(isinstance(n, ast.For) and ast.unparse(n.iter) == "bundle.signals.items()" and bool(pat.find("self.check_signals_compatible($V, other.signals[$K])", n)) for n in au.walk_no_nested(fb.node))
     rec_loop = any(isinstance(n, ast.For) and ast.unparse(n.iter) == "bundle.bundles.items()" and bool(pat.find("self.check_bundles_compatible($V.of, other.bundles[$K].of)", n)) for n in au.walk_no_nested(fb.node))
